@@ -1354,7 +1354,8 @@ def check(prop, tier):
     os.makedirs(os.path.join(OUTROOT, 'replays'), exist_ok=True)
     # concrete scenarios on the real code: counterexample search when an obligation failed, bounded stand-in when undecided
     wit = None
-    if violations or undecided:
+    # (a violation that already comes from a bounded scenario carries its concrete failing input: no second search)
+    if (violations and not all(v.get('kind') == 'bounded-scenario' for v in violations)) or (undecided and not violations):
         try:
             import witness as _w
             wit = _w.run([prop])
@@ -1374,6 +1375,10 @@ def check(prop, tier):
             witness = None
             if wit and wit.get('failed'):
                 witness = {'kind': 'concrete scenario failing on the real code', 'tests': wit['failed'], 'cmd': wit['failed'][0]['cmd']}
+            elif f.get('kind') == 'bounded-scenario':
+                # the failing scenario is itself the concrete input, replayed on the real code
+                scen = f.get('fn') if (f.get('fn') or '').endswith('.rs') else None
+                witness = {'kind': 'concrete scenario failing on the real code', 'tests': [f.get('key')], 'cmd': 'tool/rundemo.sh %s' % scen if scen else 'tool/witness.py %s' % prop}
             json.dump({'property': prop, 'failed_obligation': f.get('key'), 'unit': f.get('unit'), 'function': f.get('fn'),
                        'kind': f.get('kind'), 'verifier_message': f.get('message'), 'source': f.get('src'),
                        'spans': f.get('spans'), 'verifier_output': f.get('rendered'), 'witness': witness,
